@@ -140,6 +140,13 @@ def unary(w, seed, spec):
         ref = sum(float(np.vdot(x, y)) for x, y in zip(an, bn))
         if not close(a @ b, ref):
             fails.append(f'{kind} a @ b = {a @ b}, expected {ref}')
+        # complex components make the conjugation side observable
+        ca = cls_of(kind)(*[jnp.asarray(x + 1j * (k + 1) * y, dtype=jnp.complex64) for k, (x, y) in enumerate(zip(an, bn))])
+        cb = cls_of(kind)(*[jnp.asarray(y - 0.5j * x, dtype=jnp.complex64) for x, y in zip(an, bn)])
+        cref = sum(np.sum(np.conj(np.asarray(getattr(ca, c))) * np.asarray(getattr(cb, c))) for c in COMPS[kind])
+        if not np.allclose(np.asarray(ca @ cb), cref, rtol=1e-3, atol=1e-3):
+            fails.append(f'{kind} a @ b on complex components = {ca @ cb}, expected the Hermitian sum {cref} '
+                         f'(conjugate on the first operand)')
         wrong = rand_stokes('QU' if kind != 'QU' else 'IQU', rng)
         for o in (None, 2.0, jnp.ones(3), wrong):
             if a.__matmul__(o) is not NotImplemented:
@@ -177,8 +184,8 @@ def from_stokes(w, seed, spec):
                     try:
                         StokesPyTree.from_stokes(*a)
                         fails.append(f'from_stokes with {n} arguments did not raise')
-                    except (TypeError, ValueError) as e:
-                        if n > 0 and not isinstance(e, TypeError):
+                    except Exception as e:      # noqa: BLE001
+                        if not isinstance(e, (TypeError, ValueError)) or (n > 0 and not isinstance(e, TypeError)):
                             fails.append(f'from_stokes with {n} arguments raised {type(e).__name__}')
                 continue
             kind = by_arity[n]
@@ -236,7 +243,8 @@ def from_iquv(w, seed, spec):
     fails = []
     for kind in ([spec['stokes']] if spec.get('stokes') else KINDS):
         for dts in ([jnp.float32] * 4, [jnp.float16, jnp.float32, jnp.float16, jnp.float32],
-                    [jnp.float32, jnp.float16, jnp.float16, jnp.float16]):
+                    [jnp.float32, jnp.float16, jnp.float16, jnp.float16], [jnp.float16, jnp.float16, jnp.float32, jnp.float32],
+                    [jnp.float16, jnp.float16, jnp.float16, jnp.float32]):
             vals = {c: jnp.asarray(rng.uniform(1, 9, (3,)).round() + k * 10, dtype=d) for k, (c, d) in enumerate(zip('iquv', dts))}
             try:
                 got = cls_of(kind).from_iquv(*[vals[c] for c in 'iquv'])
@@ -328,7 +336,12 @@ def tree_helpers(w, seed, spec):
             if not np.allclose(got, ref, rtol=1e-2, atol=1e-2):
                 fails.append(f'dot on {type(x).__name__} with {len(jax.tree.leaves(x))} leaves: {got}, expected the Hermitian '
                              f'sum {ref} (conjugate on the first argument)')
-    for maker, mname in ((mk_arr, 'arrays'), (mk_sds, 'structures'), (mk_mixed, 'mixed')):
+    passes = []
+    for offset in range(4 if fn in (None, 'as_promoted_dtype') else 1):      # vary which leaf carries the widest dtype
+        for maker, mname in ((mk_arr, 'arrays'), (mk_sds, 'structures'), (mk_mixed, 'mixed')):
+            next(dts)
+            passes.append((maker, mname))
+    for maker, mname in passes:
         for x in trees(rng, maker):
             xl, td = jax.tree.flatten(x)
 
